@@ -373,6 +373,14 @@ func (s *session) exec(o op) (res opResult) {
 	case "set_debug":
 		p.SetDebug(true)
 
+	case "setenv":
+		// ID = variable name; Format = value; Path == "unset" removes it
+		if o.Path == "unset" {
+			setErr(&res, os.Unsetenv(o.ID))
+		} else {
+			setErr(&res, os.Setenv(o.ID, o.Format))
+		}
+
 	case "output":
 		out, err := p.Output(o.Format)
 		setErr(&res, err)
